@@ -309,3 +309,241 @@ Proof.
   - intros ->. vm_compute. reflexivity.
   - intros H. apply div1000_close; [exact H|apply cds_valid_instant_range, V].
 Qed.
+
+(* ================= as_datetime ================= *)
+
+Lemma fround_near y T : fe y < 0 -> 2 * Z.abs (fm y - T * 2 ^ (- fe y)) < 2 ^ (- fe y) ->
+  fround_away y = T /\ fround_even y = T.
+Proof.
+  intros He H. set (Q := 2 ^ (- fe y)) in *.
+  assert (HQ : 0 < Q) by (apply pow2_pos; lia).
+  assert (RA : fround_away y = T).
+  { unfold fround_away. destruct (0 <=? fe y) eqn:C; [lia|]. fold Q.
+    set (A := fm y) in *.
+    destruct (Z.sgn_spec A) as [[HA ->]|[[HA ->]|[HA ->]]].
+    - rewrite Z.mul_1_l, (Z.abs_eq A) by lia. symmetry.
+      apply (Z.div_unique (2 * A + Q) (2 * Q) T (2 * A + Q - 2 * Q * T)); [left|]; lia.
+    - rewrite Z.mul_0_l. rewrite <- HA in H. nia.
+    - rewrite (Z.abs_neq A) by lia.
+      assert ((2 * - A + Q) / (2 * Q) = - T); [|lia].
+      symmetry. apply (Z.div_unique (2 * - A + Q) (2 * Q) (- T) (2 * - A + Q + 2 * Q * T)); [left|]; lia. }
+  split; [exact RA|].
+  unfold fround_even. destruct (0 <=? fe y) eqn:C; [lia|]. fold Q. rewrite RA.
+  destruct (Z.abs (2 * (fm y - T * Q)) =? Q) eqn:C2; [lia|reflexivity].
+Qed.
+
+Lemma fmul_comm x y : fmul x y = fmul y x.
+Proof. unfold fmul. f_equal; lia. Qed.
+
+Lemma ffrac_neg u : fe u < 0 -> ffrac u = rne (Z.rem (fm u) (2 ^ (- fe u))) (2 ^ (- fe u)).
+Proof.
+  intros H. unfold ffrac, rne2. destruct (0 <=? fe u) eqn:C; [lia|reflexivity].
+Qed.
+
+Lemma rne_zero d : rne 0 d = fzero.
+Proof. reflexivity. Qed.
+
+Lemma rem_abs_le a b : 0 < b -> Z.abs (Z.rem a b) <= Z.abs a /\ Z.abs (Z.rem a b) < b.
+Proof.
+  intros Hb. split.
+  - rewrite <- (Z.abs_eq b) at 1 by lia. rewrite <- Z.rem_abs by lia.
+    apply Z.rem_le; lia.
+  - pose proof (Z.rem_bound_abs a b ltac:(lia)). lia.
+Qed.
+
+(* The double u is within 2^-21 of N/1000 (N an integer number of milliseconds).  Split
+   u = ip + fr/q; then fl(fraction * 1e6) is closer than 1/2 to the integer
+   T = 1000 N - 10^6 ip, the microsecond count that remains. *)
+Lemma frac_us_close u N :
+  fl_close u N 1000 21 -> Z.abs (fm u) < 2 ^ 53 ->
+  let q := 2 ^ (- fe u) in
+  let ip := Z.quot (fm u) q in
+  let fr := Z.rem (fm u) q in
+  let T := 1000 * N - 1000000 * ip in
+  (fr = 0 -> T = 0 /\ ffrac u = fzero) /\
+  (fr <> 0 ->
+     let y := fmul (ffrac u) (of_Z 1000000) in
+     fm (ffrac u) <> 0 /\ fe y < 0 /\ fl_normal y /\
+     2 * Z.abs (fm y - T * 2 ^ (- fe y)) < 2 ^ (- fe y)).
+Proof.
+  intros [He Hu] Hn. cbv zeta.
+  set (q := 2 ^ (- fe u)) in *. assert (Hq : 0 < q) by (apply pow2_pos; lia).
+  pose proof (Z.quot_rem' (fm u) q) as QR.
+  destruct (rem_abs_le (fm u) q Hq) as [R1 R2].
+  set (ip := Z.quot (fm u) q) in *. set (fr := Z.rem (fm u) q) in *.
+  set (mu := fm u) in *.
+  split.
+  - intros F. split.
+    + rewrite F, Z.add_0_r in QR. rewrite QR in Hu.
+      replace (1000 * (q * ip) - N * q) with (q * (1000 * ip - N)) in Hu by ring.
+      rewrite Z.abs_mul, (Z.abs_eq q) in Hu by lia.
+      change (2 ^ 21) with 2097152 in Hu.
+      assert (Z.abs (1000 * ip - N) = 0) by nia. lia.
+    + rewrite ffrac_neg by assumption. fold q. fold mu. fold fr. rewrite F. reflexivity.
+  - intros F.
+    rewrite ffrac_neg by assumption. fold q. fold mu. fold fr.
+    destruct (rne_exact_val fr (- fe u) F ltac:(lia) ltac:(lia)) as (Fe & Fm & Fn & _).
+    fold q in Fe, Fm, Fn. set (f := rne fr q) in *.
+    split; [lia|].
+    rewrite of_Z_1000000. unfold fmul. cbn [fm fe]. unfold rne2.
+    destruct (0 <=? fe f + -33) eqn:C; [lia|].
+    set (F2 := 2 ^ (- fe f)) in *. assert (HF2 : 0 < F2) by (apply pow2_pos; lia).
+    assert (PE : 2 ^ (- (fe f + -33)) = F2 * 2 ^ 33).
+    { unfold F2. rewrite <- pow2_add by lia. f_equal. lia. }
+    assert (G1 : 0 < 2 ^ (- (fe f + -33))) by (rewrite PE; lia).
+    assert (G2 : fm f * 8589934592000000 * q = fr * 1000000 * 2 ^ (- (fe f + -33))).
+    { rewrite PE. change 8589934592000000 with (1000000 * 2 ^ 33).
+      replace (fm f * (1000000 * 2 ^ 33) * q) with (fm f * q * (1000000 * 2 ^ 33)) by ring.
+      rewrite Fm. ring. }
+    assert (G3 : Z.abs (fr * 1000000) < q * 2 ^ 20).
+    { rewrite Z.abs_mul. change (Z.abs 1000000) with 1000000. change (2 ^ 20) with 1048576. lia. }
+    destruct (rne_result_close (fm f * 8589934592000000) (2 ^ (- (fe f + -33))) (fr * 1000000) q 20
+                G1 Hq G2 ltac:(lia) G3 ltac:(lia)) as ([Ye Yc] & Yn & _).
+    set (y := rne (fm f * 8589934592000000) (2 ^ (- (fe f + -33)))) in *.
+      split; [exact Ye|]. split; [exact Yn|].
+      change (54 - 20) with 34 in Yc.
+      set (Q := 2 ^ (- fe y)) in *. assert (HQ : 0 < Q) by (apply pow2_pos; lia).
+      set (A := fm y) in *. set (T := 1000 * N - 1000000 * ip).
+      assert (ID : q * (A - T * Q) = (q * A - fr * 1000000 * Q) + 1000 * Q * (1000 * mu - N * q)).
+      { unfold T. rewrite QR. ring. }
+      pose proof (Z.abs_nonneg (q * A - fr * 1000000 * Q)) as P1.
+      pose proof (Z.abs_nonneg (1000 * mu - N * q)) as P2.
+      pose proof (Z.abs_nonneg (A - T * Q)) as P3.
+      assert (TR : q * Z.abs (A - T * Q) <=
+                   Z.abs (q * A - fr * 1000000 * Q) + 1000 * (Q * Z.abs (1000 * mu - N * q))).
+      { rewrite <- (Z.abs_eq q) at 1 by lia. rewrite <- Z.abs_mul, ID.
+        eapply Z.le_trans; [apply Z.abs_triangle|].
+        apply Z.add_le_mono_l. rewrite !Z.abs_mul. rewrite (Z.abs_eq Q) by lia.
+        change (Z.abs 1000) with 1000. lia. }
+      set (E1 := Z.abs (q * A - fr * 1000000 * Q)) in *.
+      set (E2 := Z.abs (1000 * mu - N * q)) in *.
+      set (Zz := Z.abs (A - T * Q)) in *.
+      assert (B2 : 2 ^ 21 * (Q * E2) <= 1000 * (q * Q)).
+      { replace (2 ^ 21 * (Q * E2)) with (Q * (2 ^ 21 * E2)) by ring.
+        replace (1000 * (q * Q)) with (Q * (1000 * q)) by ring.
+        apply Z.mul_le_mono_nonneg_l; lia. }
+      change (2 ^ 34) with 17179869184 in Yc. change (2 ^ 21) with 2097152 in B2.
+      assert (HqQ : 0 < q * Q) by nia.
+      set (a1 := q * Zz) in *. set (a3 := Q * E2) in *. set (a4 := q * Q) in *.
+      assert (FIN : 2 * a1 < a4) by (clear - TR Yc B2 HqQ; lia).
+      unfold a1, a4 in FIN.
+      apply (Z.mul_lt_mono_pos_l q _ _ Hq).
+      replace (q * (2 * Zz)) with (2 * (q * Zz)) by ring. exact FIN.
+Qed.
+
+Lemma ftrunc_neg u : fe u < 0 -> ftrunc u = Z.quot (fm u) (2 ^ (- fe u)).
+Proof. intros H. unfold ftrunc. destruct (0 <=? fe u) eqn:C; [lia|reflexivity]. Qed.
+
+(* datetime.fromtimestamp: the exact microsecond *)
+Lemma us_fromtimestamp_exact u N :
+  fl_close u N 1000 21 -> Z.abs (fm u) < 2 ^ 53 -> us_fromtimestamp u = 1000 * N.
+Proof.
+  intros C Hn. pose proof (frac_us_close u N C Hn) as H. cbv zeta in H. destruct C as [He _].
+  unfold us_fromtimestamp. rewrite ftrunc_neg by assumption.
+  set (q := 2 ^ (- fe u)) in *. set (ip := Z.quot (fm u) q) in *. set (fr := Z.rem (fm u) q) in *.
+  destruct H as [H0 H1]. destruct (Z.eq_dec fr 0) as [F|F].
+  - destruct (H0 F) as [T0 ->].
+    change (fround_even (fmul fzero (of_Z 1000000))) with 0.
+    change (0 >=? 1000000) with false. change (0 <? 0) with false. cbv iota. lia.
+  - destruct (H1 F) as (_ & Ye & Yn & Yc). set (y := fmul (ffrac u) (of_Z 1000000)) in *.
+    destruct (fround_near y _ Ye Yc) as [_ ->].
+    set (T := 1000 * N - 1000000 * ip).
+    destruct (T >=? 1000000); [lia|]. destruct (T <? 0); lia.
+Qed.
+
+(* the tail of timedelta(seconds=float): integer part of dnum plus its fraction rounded *)
+Lemma td_tail_exact y T : fe y < 0 -> Z.abs (fm y) < 2 ^ 53 ->
+  2 * Z.abs (fm y - T * 2 ^ (- fe y)) < 2 ^ (- fe y) ->
+  forall lo, lo = ffrac y ->
+  (fm lo = 0 -> ftrunc y = T) /\
+  (fm lo <> 0 -> fe lo < 0 /\ 2 * Z.abs (fm lo - (T - ftrunc y) * 2 ^ (- fe lo)) < 2 ^ (- fe lo)).
+Proof.
+  intros Ye Yn Yc lo ->.
+  rewrite ftrunc_neg by assumption. rewrite ffrac_neg by assumption.
+  set (Q := 2 ^ (- fe y)) in *. assert (HQ : 0 < Q) by (apply pow2_pos; lia).
+  set (A := fm y) in *.
+  pose proof (Z.quot_rem' A Q) as QR.
+  destruct (rem_abs_le A Q HQ) as [R1 R2].
+  set (ty := Z.quot A Q) in *. set (ry := Z.rem A Q) in *.
+  destruct (Z.eq_dec ry 0) as [G|G].
+  - rewrite G, rne_zero. split; [intros _|intros H; exfalso; apply H; reflexivity].
+    rewrite G, Z.add_0_r in QR. rewrite QR in Yc.
+    replace (Q * ty - T * Q) with (Q * (ty - T)) in Yc by ring.
+    rewrite Z.abs_mul, (Z.abs_eq Q) in Yc by lia.
+    destruct (Z.eq_dec ty T) as [EQ|NE]; [exact EQ|exfalso].
+    assert (Q * 1 <= Q * Z.abs (ty - T)) by (apply Z.mul_le_mono_nonneg_l; lia).
+    lia.
+  - assert (Hry : Z.abs ry < 2 ^ 53) by lia.
+    assert (Hj : 0 <= - fe y) by lia.
+    destruct (rne_exact_val ry (- fe y) G Hry Hj) as (Le & Lm & Ln & _).
+    fold Q in Le, Lm, Ln. set (lo := rne ry Q) in *.
+    split; [intros H; exfalso; lia|intros _].
+    assert (Le' : fe lo < 0) by lia. split; [exact Le'|].
+    set (QL := 2 ^ (- fe lo)) in *.
+    assert (HQL : 0 < QL) by (apply pow2_pos; clear - Le'; lia).
+    apply (Z.mul_lt_mono_pos_l Q _ _ HQ).
+    replace (Q * (2 * Z.abs (fm lo - (T - ty) * QL))) with (2 * (Z.abs Q * Z.abs (fm lo - (T - ty) * QL)))
+      by (rewrite (Z.abs_eq Q) by (clear - HQ; lia); ring).
+    rewrite <- Z.abs_mul.
+    replace (Q * (fm lo - (T - ty) * QL)) with (QL * (A - T * Q))
+      by (rewrite QR; replace (Q * (fm lo - (T - ty) * QL)) with (fm lo * Q - (T - ty) * QL * Q) by ring;
+          rewrite Lm; ring).
+    rewrite Z.abs_mul, (Z.abs_eq QL) by (clear - HQL; lia).
+    replace (Q * QL) with (QL * Q) by ring.
+    replace (2 * (QL * Z.abs (A - T * Q))) with (QL * (2 * Z.abs (A - T * Q))) by ring.
+    apply Z.mul_lt_mono_pos_l; assumption.
+Qed.
+
+(* epoch + timedelta(seconds=u): the exact microsecond *)
+Lemma us_timedelta_exact u N :
+  fl_close u N 1000 21 -> Z.abs (fm u) < 2 ^ 53 -> us_timedelta_seconds u = 1000 * N.
+Proof.
+  intros C Hn. pose proof (frac_us_close u N C Hn) as H. cbv zeta in H. destruct C as [He _].
+  unfold us_timedelta_seconds. rewrite ftrunc_neg by assumption.
+  set (q := 2 ^ (- fe u)) in *. set (ip := Z.quot (fm u) q) in *. set (fr := Z.rem (fm u) q) in *.
+  destruct H as [H0 H1]. destruct (Z.eq_dec fr 0) as [F|F].
+  - destruct (H0 F) as [T0 ->]. change (fm fzero =? 0) with true. cbv iota. clear - T0. lia.
+  - destruct (H1 F) as (Fnz & Ye & Yn & Yc). clear H0 H1.
+    destruct (fm (ffrac u) =? 0) eqn:C0; [clear - C0 Fnz; lia|].
+    rewrite (fmul_comm (of_Z 1000000) (ffrac u)).
+    set (y := fmul (ffrac u) (of_Z 1000000)) in *.
+    set (T := 1000 * N - 1000000 * ip) in *.
+    unfold fl_normal in Yn.
+    destruct (td_tail_exact y T Ye ltac:(clear - Yn; lia) Yc (ffrac y) eq_refl) as [L0 L1].
+    set (lo := ffrac y) in *. set (ty := ftrunc y) in *.
+    destruct (fm lo =? 0) eqn:C1.
+    + assert (ty = T) by (apply L0; clear - C1; lia). unfold T in *. clear - H. lia.
+    + destruct (L1 ltac:(clear - C1; lia)) as [Le NEAR].
+      destruct (fround_near lo (T - ty) Le NEAR) as [-> _].
+      destruct (Z.abs (2 * (fm lo - (T - ty) * 2 ^ (- fe lo))) =? 2 ^ (- fe lo)) eqn:C2.
+      * exfalso. clear - C2 NEAR. lia.
+      * unfold T. clear. lia.
+Qed.
+
+(* as_datetime: exactly the instant, at microsecond resolution, for every valid timestamp *)
+Lemma cds_datetime_exact t : cds_valid t -> cds_datetime_us t = cds_instant_ms t * 1000.
+Proof.
+  intros V. unfold cds_datetime_us.
+  destruct (cds_unix_seconds_close t V) as [Z0 NZ]. cbv zeta in Z0, NZ.
+  destruct (Z.eq_dec (cds_instant_ms t) 0) as [E|E].
+  - rewrite (Z0 E), E. reflexivity.
+  - destruct (NZ E) as (C & Nn & _). unfold fl_normal in Nn.
+    destruct (fneg (cds_unix_seconds t)).
+    + rewrite (us_timedelta_exact _ _ C) by lia. lia.
+    + rewrite (us_fromtimestamp_exact _ _ C) by lia. lia.
+Qed.
+
+(* later timestamps map to later datetimes, and to Unix seconds that are not smaller *)
+Lemma cds_datetime_monotone a b : cds_valid a -> cds_valid b ->
+  (cds_lt a b <-> cds_datetime_us a < cds_datetime_us b).
+Proof.
+  intros Va Vb. rewrite !cds_datetime_exact by assumption.
+  rewrite (cds_monotone a b) by (unfold cds_valid in *; lia). lia.
+Qed.
+
+(* non-vacuity / concrete values: one second after the last midnight before 1970 *)
+Lemma cds_views_example :
+  cds_unix_seconds {| cdays := 4382; cms := 1000 |} = {| fm := -5937294070513664; fe := -36 |} /\
+  -5937294070513664 = -86399 * 2 ^ 36 /\
+  cds_datetime_us {| cdays := 4382; cms := 1000 |} = -86399000000.
+Proof. vm_compute. repeat split; reflexivity. Qed.
